@@ -235,3 +235,71 @@ Proof. split; [vm_compute; reflexivity|]. exists 61000. split; [simpl; tauto | r
 
 Example c15_example_reachable : reachable (fst (run (init 65534) ex_ops)).
 Proof. exists 65534, ex_ops. split; [unfold u16; split; [discriminate | reflexivity] | reflexivity]. Qed.
+
+(* ---- source tie (tools/gofunc): Generated/Rpc.v is regenerated from qnet/rpc.go and from
+   GOROOT/src/time/time.go on every run; C15/SourceRpc.v proves the model's pieces equal to it.
+   rpc.go itself is almost entirely outside the translator's subset (map, channel, interface and
+   pointer-typed values in every body): only the head of nextSeq is translated.  The sweep's
+   expiry test now.After(ctx.deadline) is time.Time.After, translated with its accessors. ---- *)
+From FV Require Lib.GoSem.
+From FV Require Import Generated.Rpc C15.SourceRpc.
+
+(* nextSeq starts probing from the counter field: a Call step of the model is the probe from the
+   value the translated head of nextSeq reaches *)
+Theorem c15_src_nextseq_start : forall s sync dl,
+  exists v, go_RpcClient_nextSeq_prefix (counter s) = Lib.GoSem.Reached v /\
+    Model.step s (OCall sync dl) =
+      match probe fuel16 v (pending s) with
+      | Some seq => call_with s sync dl seq
+      | None => call_refused s sync dl
+      end.
+Proof. exact src_nextSeq_start. Qed.
+Print Assumptions c15_src_nextseq_start.
+
+(* both instants carry a monotonic reading (t.wall & u.wall & hasMonotonic != 0, i.e. bit 63 of both
+   wall words: every value that comes from time.Now(), so the ticker's `now` and the deadline
+   time.Now().Add(time.Minute)): time.Time.After(now, deadline) IS the model's `overdue` on the
+   monotonic readings *)
+Theorem c15_src_after_monotonic : forall nw ne dw de k i sy,
+  both_mono nw dw ->
+  go_time_Time_After nw ne dw de = overdue ne (k, mkctx i sy de).
+Proof. exact src_after_monotonic. Qed.
+Print Assumptions c15_src_after_monotonic.
+
+Theorem c15_src_both_mono_bits : forall tw uw,
+  both_mono tw uw <-> Z.testbit tw 63 = true /\ Z.testbit uw 63 = true.
+Proof. exact both_mono_bits. Qed.
+Print Assumptions c15_src_both_mono_bits.
+
+(* otherwise After compares wall-clock (sec, nsec): the model's `overdue` on sec*10^9 + nsec, for all
+   values whose nanosecond field is below 10^9 *)
+Theorem c15_src_after_wall : forall nw ne dw de k i sy,
+  ~ both_mono nw dw -> nsec_ok nw -> nsec_ok dw ->
+  go_time_Time_After nw ne dw de = overdue (wall_ns nw ne) (k, mkctx i sy (wall_ns dw de)).
+Proof. exact src_after_wall. Qed.
+Print Assumptions c15_src_after_wall.
+
+(* strict for every time value: a sweep at exactly the deadline expires nothing *)
+Theorem c15_src_after_strict : forall w e, go_time_Time_After w e w e = false.
+Proof. exact src_after_strict. Qed.
+Print Assumptions c15_src_after_strict.
+
+(* the model's sweep keeps / moves to the expired list exactly the entries time.Time.After selects *)
+Theorem c15_src_sweep_after : forall s nw ne dw,
+  both_mono nw dw ->
+  pending (fst (Model.step s (OSweep ne))) =
+    filter (fun e => negb (go_time_Time_After nw ne dw (cdl (snd e)))) (pending s) /\
+  expired (fst (Model.step s (OSweep ne))) =
+    expired s ++ map snd (filter (fun e => go_time_Time_After nw ne dw (cdl (snd e))) (pending s)).
+Proof. exact src_sweep_after. Qed.
+Print Assumptions c15_src_sweep_after.
+
+(* a monotonic `now` one nanosecond past / exactly at / before a monotonic deadline; a wall-clock pair
+   decided by the nanosecond field *)
+Example c15_example_src_after :
+  go_time_Time_After 9223372036854775808 60000000001 9223372036854775808 60000000000 = true /\
+  go_time_Time_After 9223372036854775808 60000000000 9223372036854775808 60000000000 = false /\
+  go_time_Time_After 9223372036854775808 59999999999 9223372036854775808 60000000000 = false /\
+  go_time_Time_After 500 63800000000 499 63800000000 = true /\
+  go_time_Time_After 499 63800000001 500 63800000001 = false.
+Proof. vm_compute. repeat split. Qed.
